@@ -608,7 +608,7 @@ export function gen(rng, params, mode) {
     const p = genProg(rng);
     p[2] = [p[2][0]]; // one export
     // a type called K used twice (so that it is printed as a declaration), once as the value type of a record
-    if (p[1].some((d) => d[1] === "K" && d[2].length === 0) && rng.chance(1, 2)) p[2] = [["E0", [A("obj"), [["a", A("false"), [A("ref"), "K"]], ["r", A("false"), rng.pick([[A("bi"), "Record", A("string"), [A("ref"), "K"]], [A("obj"), [], [A("string"), [A("ref"), "K"]]]])]], A("none")]]];
+    if (p[1].some((d) => d[1] === "K" && d[2].length === 0) && rng.chance(1, 2)) p[2] = [["E0", [A("obj"), [["a", A("false"), [A("ref"), "K"]], ["r", A("false"), rng.pick([[A("bi"), "Record", A("string"), [A("ref"), "K"]], [A("obj"), [], [A("string"), [A("ref"), "K"]]], [A("bi"), "Record", [A("tpl"), [A("lit"), "x_"], A("str")], [A("ref"), "K"]]])]], A("none")]]];
     const vals = genValues(rng, p, Number(params[0] || 12));
     return [A("describe"), A(String(counter++)), p, [["entry.ts", tsOfProg(p)]], vals.map(encVal)];
   }
